@@ -41,6 +41,9 @@ type c14Case struct {
 	Merger   bool      `json:"merger,omitempty"`
 	Ms       int       `json:"ms,omitempty"`
 	Procs    int       `json:"procs,omitempty"`
+	// QLife: lifecycle of the engine that runs the paused query in span mode
+	// (queries work on engines that were never started or are stopped)
+	QLife string `json:"qlife,omitempty"` // "", started, stopped
 }
 
 func genC14() *rapid.Generator[c14Case] {
@@ -59,6 +62,17 @@ func genC14() *rapid.Generator[c14Case] {
 			c.Steps = append(c.Steps, c14Step{Op: "merge"})
 		}
 		c.PauseAt = rapid.IntRange(0, 3).Draw(t, "pauseat")
+		c.QLife = pick(t, "qlife", []string{"", "started", "stopped", "stopped"})
+		if c.Mode == "span" && chance(t, "manyfiles", 30) {
+			// many candidate files (more than any internal page size), the query
+			// paused early in its iteration while a merge rewrites later files
+			c.Steps = nil
+			for i := rapid.IntRange(66, 140).Draw(t, "nfiles"); i > 0; i-- {
+				c.Steps = append(c.Steps, c14Step{Op: "ingest", Rows: 1, Parts: pick(t, "mparts", []int{1, 2, 0})})
+			}
+			c.Steps = append(c.Steps, c14Step{Op: "merge"})
+			c.PauseAt = pick(t, "mpause", []int{0, 1, 10, 40, 63, 64, 70})
+		}
 		c.SpanWhat = pick(t, "spanwhat", []string{"merge", "merge", "flush"})
 		c.Writers = rapid.IntRange(1, 3).Draw(t, "writers")
 		c.Queriers = rapid.IntRange(1, 3).Draw(t, "queriers")
@@ -384,6 +398,20 @@ func runC14(c c14Case) *Violation {
 		if err != nil {
 			return violf("config: %v", err)
 		}
+		switch c.QLife {
+		case "started":
+			qeng.Start()
+			defer func() {
+				sctx, cancel := context.WithTimeout(ctx, 20*time.Second)
+				qeng.Stop(sctx)
+				cancel()
+			}()
+		case "stopped":
+			qeng.Start()
+			sctx, cancel := context.WithTimeout(ctx, 20*time.Second)
+			qeng.Stop(sctx)
+			cancel()
+		}
 		before := l.ackedSnapshot()
 		srcIDs := idsOfWorld(ds, ms)
 		type out struct {
@@ -425,6 +453,10 @@ func runC14(c c14Case) *Violation {
 		}
 		if spanned {
 			Ev.Class("commit-inside-query:" + c.SpanWhat)
+			Ev.Class("span:query-engine=" + c.QLife)
+			if len(c.Steps) > 64 {
+				Ev.Class("span:more-than-64-files")
+			}
 			if o.v.err != nil {
 				Ev.Class("spanned-query-reported-error")
 			}
@@ -560,7 +592,7 @@ func runC14(c c14Case) *Violation {
 }
 
 func TestC14(t *testing.T) {
-	Ev.Rule = "case = (MemoryMetaStore | FileSystemDataStore as MetaStore) x one of: window — a sequential history of flushes and merges in which a complete match-all probe query runs before and after EVERY CreateFile/Close/Abort/Update/TombstoneFile call of the flush or merge (inside every publish, commit and cleanup window); span — a query whose MetaStore iteration is paused after 0-3 candidates while a whole Merge (or flush) commits, then resumed; stress — 1-3 writers, optional merger and 1-3 queriers running freely for 40-150 ms. Oracle: Err()==nil => every id acknowledged before the query started exactly once, no id twice; never an id that was not ingested; Err!=nil imposes nothing else. Violations on the filesystem MetaStore whose affected ids are exactly rows of the Merge in progress are attributed to the two listed known findings (duplicates in the publish window, omissions when the scan listed the directory before the commit); everything else is a violation. Non-trivial: a probe ran inside a commit window, or a commit happened inside the paused query, or a stress query overlapped a merge; distinct by case."
+	Ev.Rule = "case = (MemoryMetaStore | FileSystemDataStore as MetaStore) x one of: window — a sequential history of flushes and merges in which a complete match-all probe query runs before and after EVERY CreateFile/Close/Abort/Update/TombstoneFile call of the flush or merge (inside every publish, commit and cleanup window); span — a query whose MetaStore iteration is paused after 0-3 candidates (in a third of the span cases: 66-140 single-row files, paused at candidate 0-70) while a whole Merge (or flush) commits, then resumed; the querying engine is never started, started, or already stopped; stress — 1-3 writers, optional merger and 1-3 queriers running freely for 40-150 ms. Oracle: Err()==nil => every id acknowledged before the query started exactly once, no id twice; never an id that was not ingested; Err!=nil imposes nothing else. Violations on the filesystem MetaStore whose affected ids are exactly rows of the Merge in progress are attributed to the two listed known findings (duplicates in the publish window, omissions when the scan listed the directory before the commit); everything else is a violation. Non-trivial: a probe ran inside a commit window, or a commit happened inside the paused query, or a stress query overlapped a merge; distinct by case."
 	Ev.Assumptions = []string{"free-running interleavings are sampled, not owned", "on the filesystem MetaStore, stress queries that overlap a Merge and disagree are excluded (the gated phases judge that window precisely)"}
 	runChecks(t, "snapshots", 150, 3000, genC14(), runC14)
 }
